@@ -26,6 +26,10 @@ INLINE = re.compile(r"^(?:auto |void |decltype\(auto\) )?boost::multi::(?:detail
 # non-const accessors of the value layer that hand out a reference into the object (one GEP): followed, so that a write through the reference is seen
 INLINE_ACCESSOR = re.compile(r"boost::multi::layout_t<[^()]*>::(nelems|stride|offset|sub)\(\) &$")
 
+# members that the library's own allocator_traits wrapper adds on top of std::allocator_traits are interpreted (a shadowing member must not pass for the
+# standard one); allocate / deallocate stay events (PRIMS)
+INLINE_TRAITS = re.compile(r"boost::multi::allocator_traits<.*>::(?!allocate\b|deallocate\b|construct\b|destroy\b)\w+\(")
+
 INLINE_FREE = re.compile(r"^(?:[\w:<>,&* ]+? )?boost::multi::(?:\w+|operator[=!<>~]=?)\((?:boost::multi::)?(array|static_array|array_ref|subarray|const_subarray|move_subarray)<")
 
 PRIMS = [
@@ -116,7 +120,7 @@ class Interp:
         if callee in self.mod.funcs:
             if self.opaque_extra and self.opaque_extra.search(dm):
                 return ("opaque", None, self.may_throw.get(callee, True), dm)
-            if INLINE.search(dm) or INLINE_STD.search(dm) or INLINE_FREE.search(dm) or INLINE_ACCESSOR.search(dm) or container_member(dm) or (self.inline_extra and self.inline_extra.search(dm)):
+            if INLINE.search(dm) or INLINE_STD.search(dm) or INLINE_FREE.search(dm) or INLINE_ACCESSOR.search(dm) or INLINE_TRAITS.search(dm) or container_member(dm) or (self.inline_extra and self.inline_extra.search(dm)):
                 return ("inline", None, self.may_throw.get(callee, True), dm)
             return ("opaque", None, self.may_throw.get(callee, True), dm)
         return ("extern", None, not self.mod.is_nounwind(callee), dm)
